@@ -27,6 +27,7 @@ type PropSpec struct {
 	Secrets []string // information-flow mode: secret byte slices of the root receiver
 	SecretRecv string // receiver type the secrets belong to
 	ForceInline []string // callees verified in place although they have contracts
+	ThoroughRoots []string // additional roots of the thorough tier (obligations too slow for the quick limits)
 	Note      string
 	Extra     func(w *World, run *PropRun)
 }
@@ -154,6 +155,9 @@ func runCheck(args []string) int {
 	}
 	// transitive closure of roots over used contracts
 	todo := append([]string{}, spec.Roots...)
+	if tier == "thorough" {
+		todo = append(todo, spec.ThoroughRoots...)
+	}
 	if spec.InvariantMethods {
 		todo = append(todo, w.invariantMethods...)
 	}
